@@ -137,6 +137,8 @@ class Scheduler:
         self.divergence = None
         self.clock_deviations = 0
         self.free_cost = 0
+        self.policy = None                  # optional default-choice policy beyond the replayed prefix (periodic schedules)
+        self.fair_stay_cost = 0             # cost of not yielding at a fairness point (1 in round-robin quantum harnesses)
         self.lock_points = True             # False: uncontended lock operations are not scheduling points
         self.on_point = None                # harness invariant evaluated at every scheduling point in the window
         self.snapshot = None
@@ -200,7 +202,7 @@ class Scheduler:
                         break
                 nxt = nxt or others[0]
                 opts.append(nxt); costs.append(0)
-                opts.append(cur); costs.append(0)
+                opts.append(cur); costs.append(self.fair_stay_cost)
                 for t in others:
                     if t is not nxt:
                         opts.append(t); costs.append(1)
@@ -228,6 +230,8 @@ class Scheduler:
                 self.divergence = "choice %d: recorded %d options, now %d (%s)" % (i, n, len(opts), label)
                 self._teardown("divergence")
                 raise ExecutionAbort()
+        elif self.policy is not None:
+            c = self.policy(self, opts, costs, label)
         else:
             c = 0
         self.trace.append((c, len(opts), tuple(costs), label))
